@@ -11,11 +11,20 @@ mutable default, a class-level table) breaks it.
 namespace NmlVerif.C07
 open NmlVerif.Glue
 
-/-! ## known findings mirrored from `known_findings.d/C07.json` (names of violating shared variables) -/
+/-! ## known findings and reviewed memo caches -/
 
-/-- open findings `C07:shared-mutable:<name>`; empty since the class-level tables of `NetworkBuilder` and the
-    `indices={}` default of `OptimizedList` are repaired -/
+/-- open findings `C07:shared-mutable:<name>` of `known_findings.d/C07.json` (names of violating shared variables);
+    empty since the class-level tables of `NetworkBuilder` and the `indices={}` default of `OptimizedList` are
+    repaired -/
 def Known : List String := []
+
+/-- reviewed memo caches: shared variables that ARE looked up before being filled, but only as
+    `cache[key]`-or-compute of a function of never-written class constants, so that no result depends on their
+    content (the assumption is explicit in `c07_loaders_history_independent`: `RespectsInv` with an invariant).
+    `GeneratedsSuperSuper._get_members` caches, per class name, the list of `member_data_items_` of the class and its
+    ancestors in `cls.__all_members_`. -/
+def Benign : List String :=
+  ["neuroml/nml/generatedssupersuper.py::GeneratedsSuperSuper._GeneratedsSuperSuper__all_members_"]
 
 variable {V R A : Type}
 
@@ -24,20 +33,23 @@ variable {V R A : Type}
 /-- every variable mentioned by a summary is declared -/
 theorem c07_table_wf : NmlVerif.Gen.Glue.table.wf = true := by decide +kernel
 
-/-- **no violating shared variable outside `Known`** in the modules as they are now -/
-theorem c07_table_ok : NmlVerif.Gen.Glue.table.okModulo NmlVerif.Gen.Glue.names Known = true := by decide +kernel
+/-- **no violating shared variable outside `Known ++ Benign`** in the modules as they are now -/
+theorem c07_table_ok : NmlVerif.Gen.Glue.table.okModulo NmlVerif.Gen.Glue.names (Known ++ Benign) = true := by
+  decide +kernel
 
-/-- **C07 for the loader entry points as extracted.**  For every semantics respecting the extracted summaries, every
-    entry point / handler of the scanned modules returns the same result after any two histories of calls of entries
-    of the table (the hypothesis about `Known` is empty while `Known = []`). -/
-theorem c07_loaders_history_independent (sem : EntrySummary → A → GState V → GState V × R)
-    (hsem : ∀ e ∈ NmlVerif.Gen.Glue.table.entries, ∀ a, Respects (sem e a) e.rbw e.writes)
+/-- **C07 for the loader entry points as extracted.**  For every semantics respecting the extracted summaries (with an
+    invariant `Inv` under which the reviewed memo caches do not influence results), every entry point / handler of the
+    scanned modules none of whose read-first variables is an open finding returns the same result after any two
+    histories of calls of entries of the table (the hypothesis about `Known` is empty while `Known = []`). -/
+theorem c07_loaders_history_independent (Inv : GState V → Prop) (sem : EntrySummary → A → GState V → GState V × R)
+    (hsem : ∀ e ∈ NmlVerif.Gen.Glue.table.entries, ∀ a,
+      RespectsInv Inv (idsOf NmlVerif.Gen.Glue.names Benign) (sem e a) e.rbw e.writes)
     (e : EntrySummary) (he : e ∈ NmlVerif.Gen.Glue.table.entries)
     (hk : ∀ v ∈ e.rbw, ∀ s, NmlVerif.Gen.Glue.names[v]? = some s → s ∉ Known) (a : A)
     (h h' : List (Call A)) (hh : ∀ c ∈ h, c.entry ∈ NmlVerif.Gen.Glue.table.entries)
-    (hh' : ∀ c ∈ h', c.entry ∈ NmlVerif.Gen.Glue.table.entries) (g : GState V) :
+    (hh' : ∀ c ∈ h', c.entry ∈ NmlVerif.Gen.Glue.table.entries) (g : GState V) (hg : Inv g) :
     (sem e a (runHist sem h g)).2 = (sem e a (runHist sem h' g)).2 :=
-  c07_history_independent _ sem hsem e he
-    (entry_ok_of_okModulo _ _ Known c07_table_ok e he hk) a h h' hh hh' g
+  c07_history_independent_inv _ Inv _ sem hsem e he
+    (entry_ok_of_okModulo _ _ Known Benign c07_table_ok e he hk) a h h' hh hh' g hg
 
 end NmlVerif.C07
